@@ -429,7 +429,8 @@ class C2Profile(ConfigBlock):
     @classmethod
     def from_path(cls, path: Union[str, PathLike]) -> "C2Profile":
         """Construct a :class:`C2Profile` from given path (path to a malleable C2 profile)"""
-        with open(path, "r") as f:
+        # newline="" disables newline translation, which would also rewrite CR / CRLF inside string literals
+        with open(path, "r", newline="") as f:
             return cls.from_text(f.read())
 
     @classmethod
